@@ -289,6 +289,30 @@ def check(prop, tier, seed):
     # --- undecided obligations: a native small-scope search of the same contract may still
     #     exhibit a failing input of the real function (then it is a violation with replay)
     searched = {}
+    # --- every contract's native small-scope search runs on every check (in parallel): the contract is evaluated natively
+    #     on a small enumerated family of concrete inputs of the REAL function, built through the real constructors and public
+    #     entry points -- so a change in the surroundings of a verified function (a constructor, a caller that prepares its
+    #     arguments) that makes the real behaviour leave the contract is noticed too.  Bounded, labelled so, never counted
+    #     among the obligations.
+    keys = []
+    for out in outs:
+        if out.get("kind") == "contract" and out.get("module") and out.get("name"):
+            k = (out["module"], out["name"])
+            if k not in keys and _has_native_search(*k):
+                keys.append(k)
+    if keys and os.environ.get("VERIF_NO_NATIVE_SEARCH") != "1":
+        from concurrent.futures import ThreadPoolExecutor
+        with ThreadPoolExecutor(max_workers=min(len(keys), int(os.environ.get("VERIF_JOBS", "16")))) as ex:
+            res = list(ex.map(lambda k: native({"module": k[0], "name": k[1], "mode": "search",
+                                                "budget": 5000 if tier == "quick" else 100000}, timeout=900), keys))
+        searched.update(dict(zip(keys, res)))
+    native_searches = []
+    reported = set()
+    for k, nat in searched.items():
+        native_searches.append({"contract": f"{k[0]}.{k[1]}", "tried": nat.get("tried"), "status": nat.get("status"),
+                                "label": "bounded (native small-scope search of the contract; not counted as proved)"})
+        if nat.get("status") == "error":
+            errors.append({"task": f"native search of {k[0]}.{k[1]}", "kind": "native", "error": {"type": "crash", "msg": str(nat.get("desc"))[:400]}})
     still_unknown = []
     for out, r in unknown:
         key = (out["module"], out["name"])
@@ -312,6 +336,27 @@ def check(prop, tier, seed):
         else:
             still_unknown.append((out, r))
     unknown = still_unknown
+    reported_keys = {(out["module"], out["name"]) for out, r in refuted} | \
+        {(out["module"], out["name"]) for out in outs if any(x.get("status") == "refuted" for x in out.get("results", []))}
+    for k, nat in searched.items():
+        if nat.get("status") != "fails" or any(f"{k[1]}" in ln and "native search" in ln for ln in lines):
+            continue
+        already = any(ln.startswith("VIOLATION") and _safe(k[1]) in ln for ln in lines)
+        violations += 0 if already else 1
+        if already:
+            continue
+        oid = k[1] + ":contract:native-search"
+        rp = os.path.join(rpdir, _safe(oid) + ".json")
+        doc = {"property": prop, "obligation": oid, "kind": "contract", "task": {"module": k[0], "name": k[1]}, "solver": None,
+               "solver_output": "every obligation generated for this function was discharged, but the contract fails natively on an input "
+                                "built through the real constructors / entry points (a change outside the verified function)",
+               "counter_model": nat.get("model"), "native_replay": nat, "reproduced_on_real_code": True, "repo": REPO, "tier": tier}
+        with open(rp, "w") as fh:
+            json.dump(doc, fh, indent=1, default=str)
+        lines.append(f"VIOLATION property={prop} replay={rp}")
+        lines.append(f"  contract {k[0]}.{k[1]} fails natively:")
+        lines.append(f"  native search: {str(nat.get('desc'))[:300]}")
+        exit_code = 1
 
     # --- undecided / errors ---------------------------------------------------------
     for out, r in unknown:
@@ -397,7 +442,7 @@ def check(prop, tier, seed):
                            "trusted_base": list(getattr(P, "TRUSTED_BASE", [])),
                            "undecided": [r["oid"] for _, r in unknown] + [o["task"] for o in errors],
                            "known_findings_reported": known_lines,
-                           "not_covered": list(getattr(P, "NOT_COVERED", [])), "repo": REPO, "selftest": st,
+                           "not_covered": list(getattr(P, "NOT_COVERED", [])), "repo": REPO, "selftest": st, "native_searches": native_searches,
                            "verdict": {0: "held", 1: "violation", 2: "undecided", 3: "checker-error"}[exit_code]},
               "assumptions": list(getattr(P, "ASSUMPTIONS", [])), "wall_s": round(wall, 3), "violations": violations}
         with open(os.path.join(evdir, f"{prop}.json"), "w") as fh:
@@ -428,6 +473,7 @@ def check(prop, tier, seed):
             "undecided": [r["oid"] for _, r in unknown] + [o["task"] for o in errors],
             "known_findings_reported": known_lines,
             "selftest": st,
+            "native_searches": native_searches,
             "slowest_obligations_s": sorted(slowest, reverse=True)[:5],
             "repo": REPO,
             "verdict": {0: "held", 1: "violation", 2: "undecided", 3: "checker-error"}[exit_code],
@@ -510,6 +556,14 @@ def selftest(prop):
         finally:
             shutil.rmtree(tmp, ignore_errors=True)
     return res
+
+
+def _has_native_search(module, name):
+    try:
+        inst = _find_instance(module, name)
+    except Exception:  # noqa: BLE001
+        return False
+    return callable(getattr(inst, "native_search", None)) and callable(getattr(inst, "native_call", None))
 
 
 def _safe(s):
